@@ -1,7 +1,9 @@
 import H5V.Proto
 import H5V.Model.BufferQueue
 /- engine `bq`: one case = op list `op;op;…`, ops:
-   `pb <hex>` `pf <hex>` `n` `k` `x <bits-decimal>` `e <0|1> <hex>`  -/
+   `pb <hex>` `pf <hex>` `n` `k` `x <bits-decimal>` `e <0|1> <hex>`
+   `pp` (pop_front) `ie` (is_empty) `fc` (peek_front_chunk_mut)
+   second queue: `apb <hex>` (push_back on it) `sw` (swap_with) `rw` (replace_with, the second queue starts afresh) -/
 namespace H5V.Model.BQ
 open H5V.Proto
 
@@ -15,8 +17,18 @@ def showOptChar : Option Char → String
   | none => "-"
   | some c => toHex c.toNat
 
+def popFront (q : Queue) : Option Buf × Queue :=
+  match q.bufs with
+  | [] => (none, q)
+  | b :: rest => (some b, ⟨rest⟩)
+
 def runOp (q : Queue) (op : String) : Queue × String :=
   match (op.trimAscii.toString.splitOn " ") with
+  | ["pp"] => match popFront q with
+      | (none, q') => (q', "pp=-") | (some b, q') => (q', "pp=" ++ showChars b)
+  | ["ie"] => (q, if q.bufs.isEmpty then "ie=1" else "ie=0")
+  | ["fc"] => match q.bufs with
+      | [] => (q, "fc=-") | b :: _ => (q, "fc=" ++ showChars b)
   | "pb" :: rest => match parseChars? (" ".intercalate rest) with
       | some b => (pushBack q b, "ok") | none => (q, "bad-op")
   | "pf" :: rest => match parseChars? (" ".intercalate rest) with
@@ -44,10 +56,20 @@ def runOp (q : Queue) (op : String) : Queue × String :=
 def runCase (fields : List String) : String :=
   match fields with
   | [ops] =>
-    let (q, outs) := (ops.splitOn ";").foldl (fun (acc : Queue × List String) op =>
-      let (q', o) := runOp acc.1 op
-      (q', o :: acc.2)) (empty, [])
-    ";".intercalate (outs.reverse) ++ ";" ++ showQueue q
+    let isAux (op : String) : Bool := op.startsWith "apb" || op == "sw" || op == "rw"
+    let (q, aux, outs) := (ops.splitOn ";").foldl (fun (acc : Queue × Queue × List String) op =>
+      let (q, aux, outs) := acc
+      match (op.trimAscii.toString.splitOn " ") with
+      | "apb" :: rest => (match parseChars? (" ".intercalate rest) with
+          | some b => (q, pushBack aux b, "ok" :: outs) | none => (q, aux, "bad-op" :: outs))
+      | ["sw"] => (aux, q, "ok" :: outs)
+      | ["rw"] => (aux, empty, "ok" :: outs)
+      | _ =>
+        let (q', o) := runOp q op
+        (q', aux, o :: outs)) (empty, empty, [])
+    let usedAux := (ops.splitOn ";").any isAux
+    ";".intercalate (outs.reverse) ++ ";" ++ showQueue q ++
+      (if usedAux then ";A=" ++ "|".intercalate (aux.bufs.map showChars) else "")
   | _ => "bad-case"
 
 end H5V.Model.BQ
